@@ -176,7 +176,8 @@ def finish(ctx, spec, out=print):
             'checker_cmd': '/venv/bin/python /verif/check %s --tier %s' % (prop, ctx.tier),
             'trusted_base': spec.get('trusted_base', []),
             'modules_digest': ctx.program.digest,
-            'loop_unroll': 2,
+            'loop_unroll': __import__('sa.paths').paths.Model.loop_unroll,
+            'max_paths_per_function': __import__('sa.paths').paths.Model.max_paths,
             'inline_depth': 6,
             'known_findings_matched': [o.key for o in old],
             'info': ctx.infos[:60],
